@@ -43,11 +43,12 @@ pub const SRC_POOL: &[&str] = &[
     "dir/",
     "../up.js",
     "./here.js",
+    "/very/long/ünïcödé/päth/with/many/bytes/ßßßß/モジュール.js",
 ];
 
 pub const NAME_POOL: &[&str] = &[
     "a", "b", "foo", "bar", "", "fn\"q", "λ", "𝒳", "\\", "\n", "toString", "__proto__", "0",
-    "function", "é", "$x", "_y",
+    "function", "é", "$x", "_y", "ünïcödé_näme_wïth_mäny_bytes_ßßßß_名前",
 ];
 
 pub const ROOT_POOL: &[&str] = &["", "r", "r/", "/", "webpack:///", "http://h/base/", "r//", "/abs", "é/"];
@@ -60,6 +61,8 @@ pub const CONTENT_POOL: &[&str] = &[
     "\"json\"\\",
     "function a(){}\n//# sourceMappingURL=x.map\n",
     "\u{0}\u{1f}",
+    "last line ends in a lone carriage return\r",
+    "\r",
 ];
 
 pub const FILE_POOL: &[&str] = &["out.js", "", "dist/ö.js", "a\"b", "/abs/out.js"];
